@@ -20,7 +20,7 @@ PID = 'C01'
 LEAN_TARGETS = ['CfVerif.Props.C01']
 PROPS_MODULES = ['CfVerif.Props.C01']
 DRIVER = 'Driver/C01.lean'
-REQUIRED_THEOREMS = []
+REQUIRED_THEOREMS = ['CfVerif.C01.needs_resending_eq', 'CfVerif.C01.model_side_conditions']
 TRUSTED = ['harness/corr/c01.py extractor + correspondence harness (fake radio / fake USB device, Python twin of the peer)',
            'queue.Queue(1) is a one-slot FIFO hand-off; a blocked put completes when the slot is freed',
            '_SharedRadio/_SharedRadioInstance/RadioManager forward send_packet unchanged (exercised by L2, not modelled)']
@@ -256,8 +256,302 @@ def extract(ctx):
     return {'C01.lean': g.render()}
 
 
-def correspond(ctx):
+# ------------------------------------------------------------------------------------------------------
+# Tie B, level 1: the real _RadioDriverThread on a scripted fake radio
+_MSG = {'Too many packets lost': 'tooManyLost', 'RadioDriver: Could not send packet to copter': 'couldNotSend'}
+
+
+def _errkind(msg):
+    msg = str(msg)
+    if msg in _MSG:
+        return _MSG[msg]
+    if msg.startswith('Error communicating with crazy radio'):
+        return 'usbException'
+    return 'other(%s)' % msg[:40]
+
+
+def _rd():
+    import logging
+    logging.disable(logging.CRITICAL)
+    import cflib.crtp.radiodriver as rd
+    return rd
+
+
+class _ScriptedFault(Exception):
     pass
+
+
+class Harness:
+    """Shared by L1 and L2: application-side operations, event collection, deterministic teardown.
+    Everything except `wait()` runs in the thread that executes the fake's send call, i.e. while the driver
+    thread is blocked waiting for the radio's answer."""
+
+    def __init__(self, driver, steps):
+        import threading
+        self.d = driver
+        self.steps = steps
+        self.i = 0
+        self.errs = []
+        self.lines = []          # reply lines, same shape as the Lean driver's
+        self.cur = None          # events of the transmission in progress
+        self.helper = None       # (thread, pkt, result-list, unfinished_tasks before the put)
+        self.finished = threading.Event()
+        self.threading = threading
+
+    # --- callbacks / application side
+    def on_error(self, msg):
+        self.errs.append('err:' + _errkind(msg))
+
+    def _mkpkt(self, hdr, data):
+        from cflib.crtp.crtpstack import CRTPPacket
+        pk = CRTPPacket()
+        pk.header = hdr
+        pk.data = bytearray(data)
+        return pk
+
+    def _qstate(self):
+        q = self.d.out_queue
+        with q.mutex:
+            return q.unfinished_tasks, len(q.queue)
+
+    def _helper_poll(self, must_finish=False):
+        """returns the events produced by a blocked submission that has completed since the last poll"""
+        if self.helper is None:
+            return []
+        th, pkt, res, u0 = self.helper
+        unfinished, qsize = self._qstate()
+        if must_finish or unfinished > u0 or qsize == 0 or not th.is_alive():
+            th.join(30)
+            if th.is_alive():
+                raise RuntimeError('blocked submission did not complete')
+            self.helper = None
+            return ['%s:%d:%s' % ('acc' if res[0] else 'ref', pkt[0], hexs(pkt[1]))]
+        return []
+
+    def app(self, op):
+        if op[0] == 'sub':
+            _, hdr, data = op
+            if self.helper is not None:
+                self.lines.append('err unsupported')
+                return
+            if self.d.out_queue.full():
+                res = []
+                u0, _ = self._qstate()
+                pk = self._mkpkt(hdr, data)
+                th = self.threading.Thread(target=lambda: res.append(self.d.send_packet(pk)), daemon=True)
+                self.helper = (th, (hdr, data), res, u0)
+                th.start()
+                self.lines.append('ok blk:%d:%s' % (hdr, hexs(data)))
+            else:
+                ok = self.d.send_packet(self._mkpkt(hdr, data))
+                self.lines.append('ok %s:%d:%s' % ('acc' if ok else 'ref', hdr, hexs(data)))
+        elif op[0] == 'timeout':
+            if self.helper is None:
+                self.lines.append('err unsupported')
+                return
+            evs = self._helper_poll(must_finish=True)     # waits for the real 2 s timeout
+            self.lines.append('ok ' + ' '.join(self.errs + evs))
+            self.errs = []
+        else:
+            raise ValueError(op)
+
+    # --- per transmission
+    def close_step(self):
+        """called when the next send begins (or at the end): everything observed since the last tx"""
+        if self.cur is None:
+            return
+        evs = list(self.cur)
+        evs += self.errs
+        self.errs = []
+        while True:
+            pk = self.d.receive_packet(0)
+            if pk is None:
+                break
+            evs.append('rx:%d/%d/%d:%s' % (pk.header, pk.port, pk.channel, hexs(pk.data)))
+        evs += self._helper_poll()
+        self.lines.append('ok ' + ' '.join(evs))
+        self.cur = None
+
+    def begin_tx(self, frame):
+        """returns the step to perform, or None when the script is over"""
+        self.close_step()
+        if self.i >= len(self.steps):
+            return None
+        st = self.steps[self.i]
+        self.i += 1
+        self.cur = ['tx:' + hexs(frame)]
+        for op in st.get('apps', ()):
+            self.app(op)
+        return st
+
+    def teardown(self):
+        # release a still-blocked submission the way RadioDriver.close() does (drain the queue)
+        if self.helper is not None:
+            th = self.helper[0]
+            for _ in range(1000):
+                if not th.is_alive():
+                    break
+                try:
+                    self.d.out_queue.get(False)
+                except Exception:
+                    pass
+                th.join(0.01)
+            self.helper = None
+
+
+def run_l1(steps, nretries, state_line=True):
+    """steps: [{'apps': [...], 'ans': ('none',) | ('exc',) | ('r', ack, bytes)}]; returns the reply lines"""
+    import array
+    import queue
+    import threading
+    rd = _rd()
+    import cflib.drivers.crazyradio as cr
+    rd.set_retries_before_disconnect(nretries)
+    d = rd.RadioDriver()
+    d.in_queue = queue.Queue()
+    d.out_queue = queue.Queue(1)
+    hz = Harness(d, steps)
+    d.link_error_callback = hz.on_error
+    holder = {}
+
+    class FakeRadio:
+        version = 0.53
+
+        def send_packet(self, data):
+            st = hz.begin_tx(bytes(bytearray(data)))
+            if st is None:
+                holder['t']._sp = True
+                hz.finished.set()
+                return None
+            ans = st['ans']
+            if ans[0] == 'none':
+                return None
+            if ans[0] == 'exc':
+                raise _ScriptedFault('scripted')
+            a = cr._radio_ack()
+            a.ack = bool(ans[1])
+            a.data = array.array('B', ans[2])
+            a.retry = st.get('retry', 0)
+            return a
+
+        def close(self):
+            pass
+
+    t = rd._RadioDriverThread(FakeRadio(), d.in_queue, d.out_queue, None, hz.on_error, d, None)
+    holder['t'] = t
+    d._thread = t
+    died = []
+    old_hook = threading.excepthook
+    threading.excepthook = lambda args: died.append(args.exc_type)
+    try:
+        t.start()
+        t.join(120)
+        if t.is_alive():
+            raise RuntimeError('radio thread did not stop')
+    finally:
+        threading.excepthook = old_hook
+        hz.teardown()
+        rd.set_retries_before_disconnect(100)
+    if not hz.finished.is_set():
+        # the thread died inside run(): the open transmission is the last one
+        hz.cur = (hz.cur or []) + ['died']
+        hz.close_step()
+    lines = hz.lines
+    if state_line:
+        lines.append('ok safelink=%d needs_resending=%d dead=%d' % (1 if t._has_safelink else 0, 1 if d.needs_resending else 0, 1 if died else 0))
+    return lines
+
+
+def lean_lines_l1(steps, nretries):
+    out = ['reset %d' % nretries]
+    for st in steps:
+        for op in st.get('apps', ()):
+            out.append('sub %d %s' % (op[1], hexs(op[2])) if op[0] == 'sub' else 'timeout')
+        a = st['ans']
+        out.append('tx ' + (a[0] if a[0] != 'r' else 'r %d %s' % (a[1], hexs(a[2]))))
+    out.append('state')
+    return out
+
+
+def _rand_payload(rng, maxlen=6):
+    return bytes(rng.randrange(256) for _ in range(rng.choice([0, 1, 1, 2, 3, maxlen])))
+
+
+def gen_l1(rng, long=False):
+    n = rng.choice([1, 1, 2, 3, 5])
+    k = rng.randrange(0, 60 if long else 26)
+    steps = []
+    neg_over = rng.random() < 0.15 and None
+    for i in range(k):
+        apps = []
+        for _ in range(rng.choice([0, 0, 0, 1, 1, 2, 3])):
+            apps.append(('sub', rng.choice([0xFF, 0xF3, rng.randrange(256)]), _rand_payload(rng)))
+        r = rng.random()
+        if i < 10 and not neg_over:
+            # negotiation-looking answers
+            if r < 0.25:
+                ans = ('r', rng.randrange(2), bytes([0xff, 0x05, 0x01]))
+                neg_over = True
+            elif r < 0.45:
+                ans = ('r', 1, rng.choice([bytes([0xff, 0x05, 0x00]), bytes([0xff, 0x05]), bytes([0xff, 0x05, 0x01, 0x00]),
+                                           bytes([0xf3, 0x05, 0x01]), b'']))
+            elif r < 0.5:
+                ans = ('none',)
+            else:
+                ans = ('r', 0, b'')
+        else:
+            if r < 0.04:
+                ans = ('none',)
+            elif r < 0.08 and i >= 10:
+                ans = ('exc',)
+            elif r < 0.40:
+                ans = ('r', 0, b'' if rng.random() < 0.8 else _rand_payload(rng))
+            elif r < 0.5:
+                ans = ('r', 1, b'')
+            else:
+                hd = rng.choice([0xF3, 0xF7, 0xFF, 0xFB, rng.randrange(256)])
+                ans = ('r', 1, bytes([hd]) + _rand_payload(rng))
+        steps.append({'apps': apps, 'ans': ans})
+    if rng.random() < 0.05:
+        steps = steps[:rng.randrange(0, 9)]
+        if not any(s['ans'][0] == 'r' and s['ans'][2] == bytes([0xff, 0x05, 0x01]) for s in steps):
+            steps.append({'apps': [], 'ans': ('exc',)})      # exception during negotiation: the thread dies
+    return steps, n
+
+
+def _compare(ctx, name, desc, lean_reqs, model, real):
+    if model != real:
+        j = next((i for i in range(min(len(model), len(real))) if model[i] != real[i]), min(len(model), len(real)))
+        ctx.disagree(name, {'desc': desc, 'requests': lean_reqs[max(0, j - 6):j + 1], 'first_diff_line': j},
+                     model[j] if j < len(model) else '(missing)', real[j] if j < len(real) else '(missing)')
+        return False
+    return True
+
+
+def correspond(ctx):
+    rng = ctx.rng
+    thorough = ctx.tier == 'thorough'
+    cases = []
+    for c in range(3000 if thorough else 500):
+        steps, n = gen_l1(rng, long=(c % 5 == 0))
+        cases.append((steps, n))
+    reqs, spans = [], []
+    for steps, n in cases:
+        ll = lean_lines_l1(steps, n)
+        spans.append((len(reqs), len(reqs) + len(ll)))
+        reqs += ll
+    replies = ctx.lean(DRIVER, reqs)
+    for (steps, n), (a, b) in zip(cases, spans):
+        model = replies[a + 1:b]
+        real = run_l1(steps, n)
+        ctx.case({'level': 'L1', 'n': n, 'steps': len(steps)}, ('L1', repr(steps), n))
+        ctx.count('L1:scripts')
+        for ln in real:
+            for w in ln.split(' ')[1:]:
+                ctx.count('L1:ev:' + w.split(':')[0].split('=')[0] + (':' + w.split(':')[1] if w.startswith('err:') else ''))
+            if ln.startswith('err'):
+                ctx.count('L1:' + ln)
+        _compare(ctx, 'L1-thread-vs-model', {'n': n, 'steps': [(s['apps'], s['ans']) for s in steps][:40]}, reqs[a:b], model, real)
 
 
 def search(ctx):
